@@ -25,7 +25,7 @@ THRESHOLDS = {"interp_f64": 1e-13, "interp_f32": 2e-5}
 
 def cases(tier, seed):
     cells = zoo.matrix()
-    reps = 4 if tier == "quick" else 120
+    reps = 4 if tier == "quick" else 360
     out = []
     for ci, cell in enumerate(cells):
         for r in range(reps):
